@@ -166,6 +166,8 @@ def node_addr(env, n):
         return env['gov'] if n['c'] == 'gov' else env['staking']
     if n['k'] == 'emit':
         return env['emitter']
+    if n['k'] == 'batch':
+        return env['batches'][n.get('p', 0)]
     return env['proxies'][n.get('p', 0)]
 
 
@@ -174,12 +176,20 @@ def code_term(nm, env, n):
         return '(CSys %s %s)' % ('HGov' if n['c'] == 'gov' else 'HStaking', fn_term(nm, n))
     if n['k'] == 'emit':
         return '(CEmit %s %s)' % (coq_list([nm.b(t) for t in (n.get('topics') or [])]), nm.b(n.get('data', '')))
+    if n['k'] == 'batch':
+        t = 'CStop'
+        for it in reversed(n.get('items') or []):
+            fl = it.get('flags', 0)
+            t = '(CSeq %s %s %s %s %s)' % (CKINDS[fl & 3], coq_bool(fl & 4), nm.b(node_addr(env, it['inner'])),
+                                           code_term(nm, env, it['inner']), t)
+        return t
     fl = n.get('flags', 0)
-    kind = ['KCall', 'KDelegateCall', 'KStaticCall', 'KCallCode'][fl & 3]
+    kind = CKINDS[fl & 3]
     return '(CProxy %s %s %s %s %s %s)' % (kind, coq_bool(fl & 4), coq_bool(fl & 8), coq_bool(fl & 16),
                                            nm.b(node_addr(env, n['inner'])), code_term(nm, env, n['inner']))
 
 
+CKINDS = ['KCall', 'KDelegateCall', 'KStaticCall', 'KCallCode']
 DUMMY_TX = '{| tx_sender := []; tx_to := []; tx_code := CEmit [] [] |}'
 
 
@@ -229,16 +239,28 @@ def corpus_hook(env):
         return dict(addr=env['staking'], topics=[t['Delegated']],
                     data='00' * 12 + d + _word(96) + _word(amount) + _enc_string(val))
     voted = dict(addr=env['gov'], topics=[t['Voted']], data='00' * 12 + d + _word(1) + _word(1))
+    voted0 = dict(addr=env['gov'], topics=[t['Voted']], data='00' * 12 + d + _word(1) + _word(0))
+    unknown = dict(addr=env['staking'], topics=['ab' * 32], data='')
     return [
         dict(id=-1, which='staking', fail_at=-1, logs=[delegated(7), delegated(0)]),       # C17_hook_alone_not_atomic_refuted
         dict(id=-2, which='multi', fail_at=-1, logs=[voted, delegated(7)]),                # C17_global_log_order_refuted
         dict(id=-3, which='staking', fail_at=-1, logs=[dict(addr=env['staking'], topics=[], data='')]),   # C17_hook_total_refuted
         dict(id=-4, which='staking', fail_at=-1, logs=[dict(addr=env['staking'], topics=[t['Delegated']], data='')]),
         dict(id=-5, which='multi', fail_at=-1, logs=[dict(delegated(9), addr='22' * 20), delegated(9)]),   # look-alike + real
+        # a failing item at every position of a receipt with several matching logs: the hook must fail whenever ANY fails
+        dict(id=-6, which='staking', fail_at=-1, logs=[delegated(0), delegated(7)]),       # ValidateBasic fails first
+        dict(id=-7, which='staking', fail_at=0, logs=[delegated(7), delegated(9)]),        # the router's handler fails first
+        dict(id=-8, which='staking', fail_at=1, logs=[delegated(7), delegated(8), unknown, delegated(9)]),   # ... in the middle
+        dict(id=-9, which='gov', fail_at=-1, logs=[voted0, voted]),
+        dict(id=-10, which='gov', fail_at=0, logs=[voted, voted]),
+        dict(id=-11, which='multi', fail_at=0, logs=[voted, delegated(7), voted]),         # staking fails, gov never runs
+        dict(id=-12, which='multi', fail_at=1, logs=[voted, delegated(7), voted]),         # gov's first fails after staking ran
+        dict(id=-13, which='multi', fail_at=-1, logs=[voted, delegated(7), voted, delegated(8)]),
     ]
 
 
-CORPUS_EXPECT = {-1: (1, 1), -2: (0, 2), -3: (2, 0), -4: (2, 0), -5: (0, 1)}   # id -> (class, number of messages)
+CORPUS_EXPECT = {-1: (1, 1), -2: (0, 2), -3: (2, 0), -4: (2, 0), -5: (0, 1), -6: (1, 0), -7: (1, 0), -8: (1, 1), -9: (1, 0),
+                 -10: (1, 0), -11: (1, 0), -12: (1, 1), -13: (0, 4)}   # id -> (class, number of messages)
 
 
 def evaluate(workdir, results, mode, tag, shard=None):
@@ -281,7 +303,8 @@ def run_generated(run, mode, n, procs, extra=()):
 
     def one(p):
         outp = os.path.join(run.work, '%s_out_%d.jsonl' % (mode, p))
-        rc, o = vlib.run_harness('c17', ['-mode', mode, '-seed', run.seed, '-from', p * per, '-n', per, '-out', outp] + list(extra))
+        hmode, cflag = ('app', ['-corpus']) if mode == 'appcorpus' else (mode, [])
+        rc, o = vlib.run_harness('c17', ['-mode', hmode, '-seed', run.seed, '-from', p * per, '-n', per, '-out', outp] + cflag + list(extra))
         if rc != 0:
             return ('error', o[-3000:])
         return vlib.read_jsonl(outp)
@@ -345,6 +368,12 @@ def tree_shape(n):
         return 'sys'
     if n['k'] == 'emit':
         return 'emit'
+    if n['k'] == 'batch':
+        def item(it):
+            fl = it.get('flags', 0)
+            pre = ['', 'delegatecall:', 'staticcall:', 'callcode:'][fl & 3] + ('ignorefail:' if fl & 4 else '')
+            return pre + tree_shape(it['inner'])
+        return 'batch[%s]' % ','.join(item(it) for it in (n.get('items') or []))
     fl = n.get('flags', 0)
     s = ['call', 'delegatecall', 'staticcall', 'callcode'][fl & 3]
     if fl & 4:
@@ -362,11 +391,25 @@ def leaf(n):
     return n
 
 
+def leaves(n):
+    """every system-contract call / emitter of a call tree"""
+    if n is None:
+        return []
+    if n['k'] == 'proxy':
+        return leaves(n['inner'])
+    if n['k'] == 'batch':
+        return [x for it in (n.get('items') or []) for x in leaves(it['inner'])]
+    return [n]
+
+
 CLASSES = {0: 'ok', 1: 'evm-failed', 2: 'hook-failed', 3: 'tx-rejected', 4: 'panic-recovered'}
 
 
 def check(run):
-    run.proof_stage()
+    # Model/AdapterCheck.v (comparison + monitors evaluated on the traces) must be rebuilt with the models it imports
+    run.proof_stage(extra_modules=['theories/Model/AdapterCheck.v'])
+    if not run.quick():
+        run.coqchk_stage()
     ok, out = vlib.build_harness(['c17'])
     if not ok:
         run.violation(dict(kind='harness-build-failed', log=out[-3000:],
@@ -389,6 +432,15 @@ def check(run):
                      as_modelled=(c['class'], len(c['msgs'])) == CORPUS_EXPECT[c['spec']['id']]) for c in corpus]
             hooks = corpus + hooks
     apps, err2 = (None, None) if hooks is None else run_generated(run, 'app', n_app, 12, ['-steps', run.budget(10, 16)])
+    n_corpus = 0
+    if hooks is not None and apps is not None:
+        # directed histories (harness/cmd/c17/corpus.go) run first on every check, whatever the seed
+        capps, err2 = run_generated(run, 'appcorpus', 48, 12)
+        if capps is None:
+            apps = None
+        else:
+            n_corpus = len(capps)
+            apps = capps + apps
     if hooks is None or apps is None:
         run.violation(dict(kind='harness-crashed', log=(err or err2)), no_input=True)
         return run.finish()
@@ -416,29 +468,50 @@ def check(run):
         for st, o in zip(a['spec']['steps'], a['obs']):
             if st['t'] in ('tx', 'create'):
                 tx_steps += 1
-                lf = leaf(st['call'])
+                lfs = leaves(st['call'])
                 dist['tx_' + CLASSES[o['class']]] += 1
                 shape = ('create>' if st['t'] == 'create' else '') + tree_shape(st['call'])
-                dist['shape_' + shape] += 1
-                if lf['k'] == 'sys':
-                    dist['fn_%s_%s' % (lf['fn'], CLASSES[o['class']])] += 1
+                dist['shape_' + (shape if 'batch' not in shape else 'batch_%d_calls' % len(lfs))] += 1
+                for lf in lfs:
+                    if lf['k'] == 'sys':
+                        dist['fn_%s_%s' % (lf['fn'], CLASSES[o['class']])] += 1
+                nsys = sum(1 for l in (o.get('logs') or []) if l['addr'] in (a['env']['staking'], a['env']['gov']))
+                if o['class'] in (0, 2):
+                    dist['tx_%s_sys_events_%s' % (CLASSES[o['class']], min(nsys, 3))] += 1
                 if o['class'] == 0 and o['pre'] != o['post']:
-                    nontrivial.add(json.dumps([shape, lf], sort_keys=True))
+                    nontrivial.add(json.dumps([shape, lfs], sort_keys=True))
             else:
                 dist['env_' + st['t']] += 1
+                if st['t'] in ('advance', 'slash', 'block'):
+                    # "burned" coins.  Slash: what the fee collector received inside the block.  Governance: deposits
+                    # leave the gov escrow in EndBlock either back to the depositor (always the faucet here) or, when
+                    # burned, to the fee collector, which BeginBlock sweeps into the distribution module.
+                    env = a['env']
+                    pre = dict((x, int(y)) for x, y in (o['pre'].get('bal') or []))
+                    post = dict((x, int(y)) for x, y in (o['post'].get('bal') or []))
+                    delta = lambda k: post.get(env[k], 0) - pre.get(env[k], 0)
+                    if st['t'] == 'slash' and delta('feecoll') > 0:
+                        dist['env_slash_burn_to_fee_collector'] += 1
+                    if delta('govmod') < 0:
+                        if -delta('govmod') > delta('faucet'):
+                            dist['env_%s_gov_deposit_burned' % st['t']] += 1
+                        if delta('faucet') > 0:
+                            dist['env_%s_gov_deposit_refunded' % st['t']] += 1
     run.coverage.update(dict(
         evaluations=len(hooks) + sum(len(a['obs']) for a in apps),
-        hook_cases=len(hooks), app_histories=len(apps), app_transactions=tx_steps,
+        hook_cases=len(hooks), app_histories=len(apps), app_corpus_histories=n_corpus, app_transactions=tx_steps,
         distinct_nontrivial=len(nontrivial),
         rule='pure hook: receipts of 0-6 logs (canonical / mutated event data, system / look-alike / near-miss addresses, '
              'missing / extra / foreign topics, injected native failures) through the real PostTxProcessing with a recording '
              'router — non-trivial = at least one native message, distinct = distinct (hook, message list); application: '
              'histories of Ethereum transactions through DeliverTx (EOA / proxy / nested / DELEGATECALL / CALLCODE / STATICCALL / '
-             'reverting / twice / look-alike emitter / constructor callers; boundary arguments; failing native actions) and '
+             'reverting / twice / batch of several calls from one contract / look-alike emitter / constructor callers; boundary '
+             'arguments; failing native actions at every position of a receipt), directed corpus first, and '
              'environment steps (rewards, time, slashing, proposal expiry) — non-trivial = successful tx that changed state, '
              'distinct = distinct (call shape, call)',
         distribution=dict(sorted(dist.items())), model_mismatches=len(hm) + len(am), monitor_failures=len(hf) + len(af),
-        samples=[hooks[1]['spec'] if len(hooks) > 1 else None, apps[0]['spec'] if apps else None]))
+        samples=[hooks[1]['spec'] if len(hooks) > 1 else None, apps[0]['spec'] if apps else None,
+                 apps[n_corpus]['spec'] if len(apps) > n_corpus else None]))
     run.coverage['trusted_base'] += [
         'hand-written models Model/Adapter.v (hooks, handlers, go-ethereum ABI decoding, ValidateBasic) tied to adapter/*, '
         'syscontracts/parser.go by the pure-hook differential run; Model/AdapterEvm.v (Solidity emit + EVM call/log semantics of the '
